@@ -4,7 +4,7 @@
 From Coq Require Import List ZArith NArith QArith Qcanon Bool.
 Import ListNotations.
 Require Import UPV.Core.Expr UPV.Core.Eval UPV.Core.Interp UPV.Planning.Problem UPV.Planning.Sem.
-Require Import UPV.Proofs.Sem_proofs UPV.Proofs.Step_proofs.
+Require Import UPV.Proofs.Sem_proofs UPV.Proofs.Step_proofs UPV.Planning.SimCache UPV.Proofs.SimCache_proofs.
 
 Theorem C02_is_applicable_iff_apply :
   forall sc P s a args,
@@ -31,3 +31,17 @@ Theorem C02_queries_pure_partial :
     nth_error (run_queries sc P keys (qs1 ++ sq :: qs2)) (length qs1) = Some (answer_of sc P keys (fst sq) (snd sq)).
 Proof. exact queries_pure. Qed.
 Print Assumptions C02_queries_pure_partial.
+
+(* The simulator instance DOES carry state across queries: the memo of grounded actions.  Modelled as a cache threaded
+   through the queries (Planning/SimCache.v): whatever the interleaving, and starting from any coherent cache (in
+   particular the empty one of a fresh simulator), every query gets exactly the answer of the cache-free simulator, so
+   no query changes the answer to any later query.  [ground], [key], [answer] are arbitrary: instantiate [ground] with
+   the grounding function, [answer] with is_applicable / apply / is_goal on the state carried by the query. *)
+Theorem C02_queries_pure_with_grounding_cache :
+  forall (K A Q R : Type) (keqb : K -> K -> bool), (forall a b, keqb a b = true -> a = b) ->
+  forall (ground : K -> A) (key : Q -> K) (answer : A -> Q -> R) (qs : list Q) (c : cache K A),
+    coherent K A keqb ground c ->
+    fst (run_cached_queries K A Q R keqb ground key answer c qs) = map (fun q => answer (ground (key q)) q) qs /\
+    coherent K A keqb ground (snd (run_cached_queries K A Q R keqb ground key answer c qs)).
+Proof. exact run_cached_queries_pure. Qed.
+Print Assumptions C02_queries_pure_with_grounding_cache.
